@@ -151,7 +151,8 @@ func cpxFeed(t *rapid.T, n *engcNode, blk bookkeeping.Block) {
 
 // cpxScript adds, to the blocks of fixed early rounds, transactions that create an application with global state and
 // boxes and an asset with a second holder, and later delete and re-create some of them (box delete + re-create, asset
-// holding close-out, local state opt-in + close-out). Rejections are tolerated (the engine records them).
+// holding close-out, local state opt-in + close-out, zero-length boxes created / resized / deleted across flushes).
+// Rejections are tolerated (the engine records them).
 type cpxScript struct {
 	App   basics.AppIndex
 	Asset basics.AssetIndex
@@ -214,14 +215,31 @@ func (sc *cpxScript) apply(w *engcWorld, b *engcBlockBuilder) {
 		case 3:
 			call(rich, "ab", "bput", "ab", "cab")
 			call(rich, "x", "bput", "x", "cx")
+			// zero-length boxes (kv value []byte{}, not nil) and a box that becomes zero-length later. The steps of each
+			// box are far enough apart that a first-stage round (a forced flush boundary) lies between them: for box "e"
+			// on every node (8 rounds), for "z" and "y" on the nodes whose first-stage rounds are the multiples of 4.
+			call(rich, "e", "bcreate", "e", string(engcItob(0)))
+			call(rich, "z", "bcreate", "z", string(engcItob(0)))
+			call(rich, "y", "bput", "y", "cy")
 		case 6:
 			call(rich, "x", "bdel", "x")
+		case 7:
+			call(rich, "z", "bresize", "z", string(engcItob(2))) // empty -> non-empty
 		case 8:
 			call(rich, "x", "bput", "x", "cx2") // re-created with another value
+		case 9:
+			call(rich, "y", "bresize", "y", string(engcItob(0))) // non-empty -> empty
+		case 12:
+			call(rich, "z", "bresize", "z", string(engcItob(0))) // ... and back to empty
+		case 14:
+			call(rich, "y", "bdel", "y") // delete of a persisted zero-length box (was non-empty before)
+		case 17:
+			call(rich, "z", "bdel", "z") // delete of a persisted zero-length box (was empty, non-empty, empty)
 		case 10:
 			_ = b.Submit([]string{"app-optin"}, &txntest.Txn{Type: protocol.ApplicationCallTx, Sender: other, ApplicationID: sc.App, OnCompletion: transactions.OptInOC})
 		case 11:
 			call(other, "", "lput", "a", "v1")
+			call(rich, "e", "bdel", "e") // delete of a zero-length box persisted in an earlier flush on every node
 		case 13:
 			_ = b.Submit([]string{"app-closeout"}, &txntest.Txn{Type: protocol.ApplicationCallTx, Sender: other, ApplicationID: sc.App, OnCompletion: transactions.CloseOutOC})
 		}
